@@ -514,6 +514,56 @@ pub fn random(o: &Opts) -> R<()> {
 }
 
 /// `determinism`: the whole pipeline N times on the same bytes (fresh hash seeds every time).
+/// A straight-line program of `let v = source; sink(part(v)); ...` statements over constant slots,
+/// elements of mappings (one or two words) and elements of a dynamic array.
+fn dataflow_program(rng: &mut StdRng) -> Vec<u8> {
+    fn key(rng: &mut StdRng, c: &mut Vec<u8>) {
+        match rng.gen_range(0..10) {
+            0..=3 => c.extend([0x60, rng.gen_range(5..10)]),
+            4..=7 => {
+                let slot = rng.gen_range(1..4u8);
+                c.extend([0x60, 0x00, 0x35, 0x60, 0x00, 0x52, 0x60, slot, 0x60, 0x20, 0x52, 0x60, 0x40, 0x60, 0x00, 0x20]);
+                if rng.gen_bool(0.5) {
+                    c.extend([0x60, rng.gen_range(1..3), 0x01]);
+                }
+            }
+            _ => c.extend([0x60, 0x04, 0x60, 0x00, 0x52, 0x60, 0x20, 0x60, 0x00, 0x20, 0x60, 0x04, 0x35, 0x01]),
+        }
+    }
+    let mut c: Vec<u8> = Vec::new();
+    for _ in 0..rng.gen_range(1..4) {
+        match rng.gen_range(0..8) {
+            0 => c.extend([0x60, 0x24, 0x35]),
+            1 => c.push(0x33),
+            2 => c.extend([0x34, 0x15]),
+            _ => {
+                key(rng, &mut c);
+                c.push(0x54);
+            }
+        }
+        for _ in 0..rng.gen_range(1..4) {
+            c.push(0x80);
+            match rng.gen_range(0..8) {
+                0 | 1 => {}
+                2 | 3 => c.extend([0x60, 8 * rng.gen_range(1..20u8), 0x1c, 0x60, 0xff, 0x16]),
+                4 => c.extend([0x60, 8 * rng.gen_range(0..20u8), 0x1c, 0x61, 0xff, 0xff, 0x16]),
+                5 => {
+                    c.push(0x73);
+                    c.extend([0xff; 20]);
+                    c.push(0x16);
+                }
+                6 => c.push(0x15),
+                _ => c.extend([0x60, 0xff, 0x16]),
+            }
+            key(rng, &mut c);
+            c.push(0x55);
+        }
+        c.push(0x50);
+    }
+    c.push(0x00);
+    c
+}
+
 pub fn determinism(o: &Opts) -> R<()> {
     use crate::{progen, vmrun};
     let seed: u64 = o.num("seed", 1);
@@ -548,6 +598,10 @@ pub fn determinism(o: &Opts) -> R<()> {
         }
         c.extend([0x60, 0x00, 0x55, 0x00]);
         progs.push(("whole-write-subword-reads".into(), c, runs * 3));
+    }
+    // values flowing between slots, mapping elements, struct words and array elements, whole and in parts
+    for _ in 0..nprog {
+        progs.push(("dataflow".into(), dataflow_program(&mut rng), runs * 2));
     }
     for _ in 0..nprog {
         let p = if rng.gen_bool(0.6) { crate::idioms::random_contract(&mut rng).1 } else { progen::any(&mut rng).code };
